@@ -1,0 +1,88 @@
+//go:build verif
+
+// Contracts for package subscribe, checked by /verif/gvc (comment-only file,
+// compiled only under the build tag "verif").
+package subscribe
+
+// The per-RPC ACL: its answer for a target is recorded in the ghost pair
+// (lastChecked, lastVerdict) declared with the gRPC stubs; Send requires it.
+//@ func iface RPCACL.Check (target)
+//@   effect lastChecked := target
+//@   effect lastVerdict := res0
+
+// Test hook that stalls before a send; assumed not to touch server state.
+//@ func field options.flowControlTest
+//@   note test hook: assumed to modify nothing
+
+// MakeSubscribeResponse wraps the cached notification; when a duplicate count
+// must be reported it writes it into a CLONE, never into the cached message.
+//@ func (*Server).MakeSubscribeResponse
+//@   props C07 C08 C12
+//@   requires s != nil
+//@   requires [cached-values-are-wellformed] isa(n.(*pb.Notification)) ==> n.(*pb.Notification) != nil
+//@     && (forall i int :: 0 <= i && i < len(n.(*pb.Notification).Update) ==> n.(*pb.Notification).Update[i] != nil)
+//@   ensures [not-a-notification] !isa(n.(*pb.Notification)) ==> res0 == nil && res1 != nil
+//@   ensures [wraps] isa(n.(*pb.Notification)) ==> res1 == nil && res0 != nil && fresh(res0)
+//@     && isa(res0.Response.(*pb.SubscribeResponse_Update)) && payload(res0.Response) != nil
+//@   ensures [same-target C07] isa(n.(*pb.Notification)) && n.(*pb.Notification) != nil && n.(*pb.Notification).Prefix != nil ==>
+//@     RespUpdate(res0) != nil && RespUpdate(res0).Prefix != nil && RespUpdate(res0).Prefix.Target == n.(*pb.Notification).Prefix.Target
+//@   ensures [no-prefix-stays-no-prefix C07] isa(n.(*pb.Notification)) && (n.(*pb.Notification) == nil || n.(*pb.Notification).Prefix == nil) ==>
+//@     RespUpdate(res0) == nil || RespUpdate(res0).Prefix == nil
+//@   ensures [shared-message-untouched C08] isa(n.(*pb.Notification)) && (s.o.noDupReport || dup == 0 || len(n.(*pb.Notification).Update) == 0)
+//@     ==> RespUpdate(res0) == n.(*pb.Notification)
+//@   ensures [dup-count-in-clone C08] isa(n.(*pb.Notification)) && !s.o.noDupReport && dup > 0 && len(n.(*pb.Notification).Update) > 0
+//@     ==> fresh(RespUpdate(res0)) && RespUpdate(res0).Update[0].Duplicates == dup
+//@   ensures [nothing-dropped C08 C01] isa(n.(*pb.Notification)) ==> len(RespUpdate(res0).Update) == len(n.(*pb.Notification).Update)
+//@     && len(RespUpdate(res0).Delete) == len(n.(*pb.Notification).Delete) && RespUpdate(res0).Timestamp == n.(*pb.Notification).Timestamp
+
+//@ pred RespWf(r *resp) := r != nil && r.t != nil && r.stream != nil
+//@ pred ClientWf(c *streamClient) := c != nil && c.acl != nil
+
+// No response for a target the ACL denies: the only Send of an update is
+// dominated by a successful Check of that message's own prefix target.
+//@ func (*Server).sendSubscribeResponse
+//@   props C07 C08 C12
+//@   requires s != nil && RespWf(r) && ClientWf(c)
+//@   modifies ghost lastChecked, ghost lastVerdict, ghost sends, ghost sendTimerArmed
+//@   ensures [one-send-at-most C07] sends == old(sends) || sends == old(sends) + 1
+//@   ensures [timer-disarmed-after C08] !sendTimerArmed || sends == old(sends)
+
+// The package-level sync response carries no update (established by the
+// package initialiser; no function under contract writes it).
+//@ pred SyncRespWf() := subscribeSync != nil && isa(subscribeSync.Response.(*pb.SubscribeResponse_SyncResponse))
+//@ pred QueueStable(q *coalesce.Queue) := q != nil && q.closed != nil && q.inserted != nil && !closed(q.inserted)
+// The request was validated by Subscribe: it is a subscription request with a list.
+//@ pred SubList(r *pb.SubscribeRequest) := r.Request.(*pb.SubscribeRequest_Subscribe).Subscribe
+//@ pred RequestWf(r *pb.SubscribeRequest) := r != nil && isa(r.Request.(*pb.SubscribeRequest_Subscribe)) && payload(r.Request) != nil && SubList(r) != nil
+//@ pred StreamClientWf(c *streamClient) := c != nil && c.acl != nil && c.stream != nil && QueueStable(c.queue) && c.errC != nil && !closed(c.errC) && RequestWf(c.sr)
+
+// A whole-target delete: one delete whose prefix+path index is exactly ["*"] with no origin.
+//@ func isTargetDelete
+//@   props C14 C12
+//@   ensures [shape C14] res0 ==> l != nil && isa(LeafValue(l).(*pb.Notification)) && len(LeafValue(l).(*pb.Notification).Delete) == 1
+//@     && (LeafValue(l).(*pb.Notification).Prefix == nil || LeafValue(l).(*pb.Notification).Prefix.Origin == "")
+//@   ensures [recognised C14] l != nil && isa(LeafValue(l).(*pb.Notification)) && len(LeafValue(l).(*pb.Notification).Delete) == 1
+//@     && (LeafValue(l).(*pb.Notification).Prefix == nil || LeafValue(l).(*pb.Notification).Prefix.Origin == "")
+//@     && len(idxpath(LeafValue(l).(*pb.Notification).Prefix, false)) == 0
+//@     && len(idxpath(LeafValue(l).(*pb.Notification).Delete[0], false)) == 1 && first(idxpath(LeafValue(l).(*pb.Notification).Delete[0], false)) == "*"
+//@     ==> res0
+//@ pred LeafValue(l *ctree.Leaf) := heapsel("ctree.Tree.leafBranch", l)
+
+// The walk closure: inserts the visited leaf handle (never a sync marker), remembers the first error.
+//@ func (*Server).processSubscription$2
+//@   props C05 C12
+//@   requires l != nil && StreamClientWf(c)
+//@   modifies captured err, ghost leafInserts, ghost lastInsertWasSync
+//@   preserves syncInserts
+
+// processSubscription: walk, then exactly one sync marker, inserted last; on a
+// path error no sync marker at all; updates_only skips the walk.
+//@ func (*Server).processSubscription
+//@   props C05 C04 C12
+//@   requires s != nil && s.c != nil && StreamClientWf(c)
+//@   modifies ghost syncInserts, ghost leafInserts, ghost lastInsertWasSync
+//@   invariant 0: syncInserts == old(syncInserts) && err == nil
+//@   ensures [at-most-one-sync C05] syncInserts == old(syncInserts) || (syncInserts == old(syncInserts) + 1 && lastInsertWasSync)
+//@   ensures [updates-only-skips-walk C04] UpdatesOnly(c.sr) ==> leafInserts == old(leafInserts)
+//@ pred UpdatesOnly(r *pb.SubscribeRequest) := isa(r.Request.(*pb.SubscribeRequest_Subscribe)) && payload(r.Request) != nil
+//@   && r.Request.(*pb.SubscribeRequest_Subscribe).Subscribe != nil && r.Request.(*pb.SubscribeRequest_Subscribe).Subscribe.UpdatesOnly
